@@ -15,27 +15,31 @@ ExpectedOns(bag) == BagPlus([x \in {60 + t : t \in DOMAIN bag} |-> bag[x - 60]],
 
 AttrListOk ==
   /\ R.ok /\ Len(R.list) > 0
-  /\ Len(R.list) = Len(R.gen)                         \* the embedded list is what `gen attr -d 20` generates
+  /\ Len(R.list) = Len(R.gen)                         \* the embedded list is what `gen attr` generates
   /\ {<<R.list[i].name, R.list[i].degree>> : i \in 1..Len(R.list)} = {<<R.gen[i].name, R.gen[i].degree>> : i \in 1..Len(R.gen)}
   /\ NoDup([i \in 1..Len(R.list) |-> R.list[i].name])
   /\ \A i \in 1..Len(R.list) :                        \* every name denotes the interval its English name says
         LET e == EnglishInterval(R.list[i].name)  p == ParseInterval(R.list[i].degree) IN
         e.ok /\ p.ok /\ ValidInterval(e.iv) /\ p.iv = e.iv
-  /\ \A n \in 1..BuiltinAttrMax : \A j \in 1..5 :     \* and every valid interval below 20 has its name
-        LET iv == [n |-> n, q |-> QualityWords[j].q] IN
-        ValidInterval(iv) => \E i \in 1..Len(R.list) : EnglishInterval(R.list[i].name).iv = iv
+  \* (which intervals have a built-in name at all is not stated: the chords that need one fail to load without it)
 
 ChordListOk ==
   /\ R.ok /\ NoDup([i \in 1..Len(R.chords) |-> R.chords[i].name])
   /\ \A i \in 1..Len(R.chords) : R.chords[i].name # <<>>
   /\ \A s \in ChordSymbols : \E i \in 1..Len(R.chords) : R.chords[i].display = SymChars[s]
 
+\* A tone the definition names more than once (its own attribute repeated, or named again by a descendant): the statement
+\* counts tones, not mentions -- sounded once or once per mention, both are "the chord's notes"
+Sounds(obs, want) == DOMAIN obs = DOMAIN want /\ \A x \in DOMAIN obs : obs[x] >= 1 /\ obs[x] <= want[x]
+
 BuiltinOk ==      \* name and display interchangeable; both resolve to the conventional tones
   LET ds == BuiltinDisplay(R.display) IN
-  /\ ds # {}
   /\ R.okName /\ R.okDisplay
-  /\ LET want == ExpectedOns(BagOfSet(ChordTones(CHOOSE s \in ds : TRUE))) IN
-     BagOfSeqD(R.onsName) = want /\ BagOfSeqD(R.onsDisplay) = want
+  /\ BagOfSeqD(R.onsName) = BagOfSeqD(R.onsDisplay)
+  \* (a built-in outside the statement's table has no conventional tones to be held to; that every symbol of the table IS
+  \* a built-in is ChordListOk's business)
+  /\ ds # {} => LET want == ExpectedOns(BagOfSet(ChordTones(CHOOSE s \in ds : TRUE))) IN
+                BagOfSeqD(R.onsName) = want
 
 BNames == [k \in {R.bnames[i].name : i \in 1..Len(R.bnames)} |->
              (CHOOSE i \in 1..Len(R.bnames) : R.bnames[i].name = k) ]
@@ -44,13 +48,13 @@ UserDictOk ==
       acc == Accept(R.uattrs, R.uchords, bn)
   IN /\ (acc => /\ R.seqOk /\ Len(R.seqOns) = Len(R.seqKeys)      \* several chords in one run: each as if alone
                  /\ \A q \in 1..Len(R.seqKeys) :
-                       BagOfSeqD(R.seqOns[q]) = ExpectedOns(ResolveTop(R.uattrs, R.uchords, bn, R.seqKeys[q], Len(R.uchords) + 1).bag))
+                       Sounds(BagOfSeqD(R.seqOns[q]), ExpectedOns(ResolveTop(R.uattrs, R.uchords, bn, R.seqKeys[q], Len(R.uchords) + 1).bag)))
      /\ (~acc => ~R.seqOk)
      /\ \A u \in 1..Len(R.uses) : LET x == R.uses[u] IN
        /\ x.terminated
        /\ IF acc
           THEN /\ x.ok                                             \* usable like a built-in
-               /\ BagOfSeqD(x.ons) = ExpectedOns(ResolveTop(R.uattrs, R.uchords, bn, x.key, Len(R.uchords) + 1).bag)
+               /\ Sounds(BagOfSeqD(x.ons), ExpectedOns(ResolveTop(R.uattrs, R.uchords, bn, x.key, Len(R.uchords) + 1).bag))
           ELSE /\ ~x.ok /\ x.stdoutLen = 0 /\ x.stderrLen > 0      \* rejected
                /\ ~x.panic /\ x.exit > 0                           \* ... with an error, not a crash
 
